@@ -585,6 +585,8 @@ def random_tree(rng, max_nodes):
 
     def node(depth):
         rep = rng.choice([1, 1, 1, 2, 2, 3, 4]) if depth else rng.choice([1, 1, 2])
+        if depth and rng.random() < 0.04:
+            rep = 0
         vol = rng.random() < 0.08
         meas = rng.random() < 0.15
         kids = []
@@ -664,6 +666,23 @@ def _obs_of(ans):
     for item in ans[1:]:
         d[item[0]] = item[1:]
     return d
+
+
+def _norm_tree(t):
+    """parsed `(L rep vol meas wf children)` with adjacent equal constants of each waveform merged
+    (the implementation collapses them into one ConstantWaveform); only used for the
+    `structural_agreement` statistic"""
+    _, rep, vol, meas, wf, kids = t
+    if wf != '-':
+        out = []
+        for i, d, c in wf:
+            d = core.as_frac(d)
+            if out and c == 'true' and out[-1][2] == 'true' and out[-1][0] == i:
+                out[-1] = (i, out[-1][1] + d, c)
+            else:
+                out.append((i, d, c))
+        wf = out
+    return (rep, vol, meas, wf, [_norm_tree(k) for k in kids])
 
 
 def check_cases(ctx, cases, family, judge_only=False):
@@ -764,7 +783,8 @@ def check_cases(ctx, cases, family, judge_only=False):
                       repr(impl_obs)[:500], repr(model_obs)[:500])
             continue
         if res.get('tout') is not None:
-            ctx.count('structural_agreement' if res['tout'] == sx(model[1]) else 'structural_difference')
+            same = res['tout'] == sx(model[1]) or _norm_tree(core.parse_sx(res['tout'])) == _norm_tree(model[1])
+            ctx.count('structural_agreement' if same else 'structural_difference')
     return found
 
 
@@ -823,7 +843,7 @@ def family_exhaustive(ctx):
 def family_random(ctx):
     rng = ctx.fork('random')
     cases = []
-    n = ctx.n(220, 4000)
+    n = ctx.n(220, 3000)
     while n > 0:
         t = random_tree(rng, 40)
         if play_len(t) > 3000:
@@ -838,7 +858,7 @@ def family_random(ctx):
 def family_templates(ctx):
     rng = ctx.fork('templates')
     cases = []
-    n = ctx.n(110, 3000)
+    n = ctx.n(110, 2200)
     nrev = 0
     while n > 0:
         t = random_template(rng)
@@ -901,15 +921,31 @@ def run(ctx: core.Ctx):
         cases = fam(ctx)
         check_cases(ctx, cases, name)
     if ctx.drifts and not ctx.violations:
-        # failing-input search: the model no longer predicts the implementation somewhere; look for an input on
-        # which the implementation's own output violates the property (judged, not compared): the complete
-        # 5-node space and a fresh, larger random stream
-        sub = core.Ctx(ctx.pid, 'thorough', ctx.seed + 7919)
-        sub.violations = ctx.violations
-        extra = family_exhaustive(sub) + family_random(sub)[:6000] + family_templates(sub)[:6000]
-        ctx.extra['failing_input_search_cases'] = len(extra)
-        sub.tier = 'quick' if ctx.quick else 'thorough'
-        check_cases_into(ctx, sub, extra)
+        failing_input_search(ctx)
+
+
+def failing_input_search(ctx):
+    """The model no longer predicts the implementation somewhere.  Look for an input on which the
+    implementation's own output violates the property (judged, not compared with the model): the
+    complete <= 5-node space for the rewrites that drifted (every parameter), plus fresh random
+    trees and template programs from a different seed."""
+    names = set()
+    for d in ctx.drifts:
+        for op in ('flatten', 'cleanup', 'encapsulate', 'unroll-children', 'unroll', 'merge', 'split', 'compat', 'roll'):
+            if ('C06 %s:' % op) in d['correspondence']:
+                names.add(op)
+    sub = core.Ctx(ctx.pid, ctx.tier, ctx.seed + 7919)
+    sub.violations = ctx.violations
+    rng = sub.fork('search')
+    extra = []
+    if names:
+        for t in exhaustive_trees(5, rng, stride_last=3 if ctx.quick else 1):
+            for op in ops_for(t, rng, full=True):
+                if op[0] in names:
+                    extra.append({'source': {'tree': t}, 'op': op})
+    extra += [c for c in family_random(sub) + family_templates(sub) if not names or c['op'][0] in names]
+    ctx.extra['failing_input_search_cases'] = len(extra)
+    check_cases_into(ctx, sub, extra)
 
 
 def check_cases_into(ctx, sub, cases):
